@@ -21,6 +21,8 @@ machine for the DETERMINISTIC fragment of Prolog control.
 * user predicates: the clauses whose renamed head unifies with the call are determined; if there is
   exactly one, its body is pushed (deterministic fragment); none = failure; more than one = outside
   the fragment (`Step.oom`).  `( C -> T ; E )` is supported for a builtin test `C`.
+* `!` is `true`: in this fragment a clause body is entered only when no other clause matches and no
+  goal leaves an alternative that could succeed, so a cut has nothing to remove.
 * one `step` function, total; `run` iterates it with fuel.
 -/
 namespace Scryer.Delim
@@ -141,6 +143,7 @@ inductive GK where
 def classify : Term → GK
   | .var _ => .var
   | .atom "true" => .tru
+  | .atom "!" => .tru
   | .atom "fail" => .fal
   | .atom "false" => .fal
   | .atom a => .pred a []
